@@ -67,7 +67,7 @@ fn kept_versions_restore(report: &mut Report, sig: &str, case: &Value, sc: &Scen
 
 pub fn run(tier: &str, seed: u64, report: &mut Report) {
     let thorough = tier == "thorough";
-    let n_scen = if thorough { 30 } else { 3 };
+    let n_scen = if thorough { 12 } else { 3 };
     for sidx in 0..n_scen {
         let case_seed = seed.wrapping_mul(15485863).wrapping_add(sidx as u64);
         let mut rng = Rng::new(case_seed);
@@ -132,7 +132,7 @@ pub fn run(tier: &str, seed: u64, report: &mut Report) {
                 remove_copy(&arch);
 
                 // ---- sweeps for real runs: crash points and single read/list faults
-                let sweep_this = !dry && real.result.starts_with("result ok") && (thorough || mask == n_subsets - 1 || mask == 0 || mask == 1 || rng.chance(1, 6));
+                let sweep_this = !dry && real.result.starts_with("result ok") && (mask == n_subsets - 1 || mask == 0 || mask == 1 || rng.chance(if thorough { 3 } else { 1 }, 6));
                 if !sweep_this {
                     continue;
                 }
